@@ -636,6 +636,49 @@ def family_block(cat):
         cat.add("block", [lookup([spos({1: vr(0, 0, 0)}), spos({1: vr(5, 0, 0)})], gpos=True, **fl)])
 
 
+# GDEF with 16-bit mark attachment classes: 257 and 513 agree with classes 1 and 2 in their low byte only
+GDEF_BIGATT = {"present": True,
+               "class": [[1, "base"], [2, "base"], [3, "lig"], [4, "mark"], [5, "mark"], [6, "mark"]],
+               "att": [[4, 257], [5, 2], [6, 513]],
+               "sets": [[4], [5], [4, 5]]}
+
+
+def family_long(cat):
+    """state that is kept per match, per lookup pass or per call shows on texts with MANY matches: repeated
+    patterns of 60..140 glyphs under contextual rules with one and two nested actions (the action budget is per
+    match), and under parent/child lookups with different filters that meet the same glyphs again and again."""
+    rep = lambda pat, n: [g for _ in range(n) for g in pat]
+    for fmt in (1, 2, 3):
+        for chain in (False, True):
+            cat.add("long", [lookup([ctx([rule([{1}, {2}], [(0, 2)])], fmt=fmt, chain=chain)]), CHILDREN["single"]()],
+                    inputs=[rep([1, 2], 70), rep([1, 2, 4], 45)])
+            cat.add("long", [lookup([ctx([rule([{1}, {2}], [(1, 2), (0, 2)])], fmt=fmt, chain=chain)], flags=["mark"]),
+                             CHILDREN["single"]()],
+                    inputs=[rep([1, 4, 2], 40), rep([1, 2], 66)])
+    cat.add("long", [lookup([ctx([rule([{1}, {2}], [(0, 2), (1, 3)])])]), CHILDREN["multi"](), CHILDREN["single"]()],
+            inputs=[rep([1, 2], 40)])
+    # parent and child with different non-trivial filters over a text that repeats the glyphs they judge differently
+    fls = [dict(flags=["mark"]), dict(flags=["lig"]), dict(useSet=True, markSet=1), dict(useSet=True, markSet=2),
+           dict(attach=1), dict(attach=2), dict(flags=["base"])]
+    for pf in fls:
+        for cf in fls:
+            if pf == cf:
+                continue
+            for fmt in (1, 3):
+                cat.add("long", [lookup([ctx([rule([{1}, {1}], [(0, 2)])], fmt=fmt)], **pf),
+                                 lookup([lig({1: [([1], 3), ([4], 6), ([5], 6)]})], **cf)],
+                        inputs=[rep([1, 4, 1, 5], 6), rep([1, 5, 1, 4, 1], 5), rep([1, 3, 1], 6)])
+    # the repository's test 2_08 repeated: IgnoreMarks parent, child with another filter, glyph count unchanged
+    cat.add("long", [lookup([ctx([rule([{1}, {1}], [(0, 2)])])], flags=["mark"]),
+                     lookup([single({1: 2, 4: 5})], flags=["lig"])], inputs=[rep([1, 4], 8), rep([1, 4, 1], 7)])
+    # 16-bit attachment classes
+    for at in (1, 2):
+        cat.add("long", [lookup([single({4: 1, 5: 1, 6: 1, 1: 2})], attach=at)], gdef=GDEF_BIGATT,
+                inputs=[[1, 4, 5, 6], [4, 4, 6, 5, 1]])
+        cat.add("long", [lookup([lig({1: [([1], 3)]})], attach=at)], gdef=GDEF_BIGATT,
+                inputs=[[1, 4, 1], [1, 5, 1], [1, 6, 1], [1, 4, 6, 1, 5, 1]])
+
+
 def family_malformed(cat):
     """C07: shapes the reader can deliver but that are not well formed (outputs are not compared)"""
     cat.add("mal-seqidx", [lookup([ctx([rule([{1}, {2}], [(2, 2), (0, 2)])])]), CHILDREN["single"]()])
@@ -684,7 +727,7 @@ FAMILIES = {
     "simple": family_simple, "lig": family_lig, "order": family_order, "ctx": family_ctx,
     "chain": family_chain, "gpos": family_gpos, "malformed": family_malformed, "ctxnest": family_ctxnest, "ctxskip": family_ctxskip,
     "curs": family_curs, "ctxfilt": family_ctxfilt, "bigid": family_bigid,
-    "ctxtrail": family_ctxtrail, "block": family_block,
+    "ctxtrail": family_ctxtrail, "block": family_block, "long": family_long,
 }
 
 
@@ -711,7 +754,7 @@ def random_gdef(rng):
     """arbitrary GDEF class data over the alphabet 1..6: any class for any glyph (also 'comp' and none), attachment
     classes and mark glyph sets that also name non-mark glyphs (they must be ignored for those)"""
     cls = [[g, c] for g in range(1, 7) for c in [rng.choice(["base", "lig", "mark", "mark", "comp", None])] if c]
-    att = [[g, rng.randint(1, 2)] for g in range(1, 7) if rng.random() < 0.5]
+    att = [[g, rng.choice([1, 2, 1, 2, 257, 514])] for g in range(1, 7) if rng.random() < 0.5]
     sets = [sorted(rng.sample(range(1, 7), rng.randint(0, 4))) for _ in range(rng.randint(0, 3))]
     return {"present": True, "class": cls, "att": att, "sets": sets}
 
